@@ -11,7 +11,7 @@ import enginelib as E
 import vlib
 from props.C01 import err_code, last
 
-COQ_TARGETS = ["Model/Ops.vo", "Model/EngineF.vo", "Model/Observe.vo", "Proofs/EngineProofs.vo"]
+COQ_TARGETS = ["Model/Ops.vo", "Model/EngineF.vo", "Model/Observe.vo", "Proofs/EngineProofs.vo", "Proofs/EngineAllProofs.vo"]
 IMPORTS = "From VF Require Import GenNorm GenHedge GenTerm Core Engine EngineF Ops Observe."
 CASE_TYPE = "engine float * list (@op float) * list (store_obs + nat) * oracle"
 CHECKER = ("fun c => let '(e, ops, expected, tbl) := c in "
